@@ -241,7 +241,7 @@ PropSpec {
     quick_runs: 120_000,
     thorough_runs: 3_000_000,
     default_seed: 1616,
-    rule: "three quarters: seeded sequences of 1-12 SessionBuilder calls (60 % coherent configurations with up to 4 perturbing calls inserted and sometimes one removed, 40 % uniformly random) over small domains (num_players 0-4, handles 0-6, 3 addresses, window/delay 0-16, fps {0,1,60}, desync {Off, On 0, On 1, On 5}, check distance 0-17, max_frames_behind {0,1,10,59,60}, catchup {0,1,2,70}) ended by start_p2p / start_synctest / start_spectator; each call's Ok/InvalidRequest is compared with a reference predicate written from the rustdoc, and every accepted configuration is run (P2P against matching simulated peers and spectators for 120 ticks with all oracles, SyncTest for 60 frames, spectator alone for 60 polls). One quarter: runs of C01's space with 2-12 misuse calls (input for a non-local handle, advance_frame with a local input missing, disconnect of a local/unknown handle, delay change or stats for the wrong player type) that must return the documented error, with a twin run without them (identical request lists and events). Non-trivial = a builder sequence with >= 3 calls, or a misuse run in which >= 2 misuse calls executed; distinct = distinct hash of (call sequence, executed schedule); the builder domain includes with_disconnect_timeout {300,1000,2000,5000} ms and with_disconnect_notify_delay {100,500,2500,6000} ms (independent setters: the delay may exceed the timeout), and in a third of the accepted configurations with a remote peer that peer dies while node 0 hangs for longer than both deadlines; a session that comes back from the builder must report the configuration it was given (num_players, max_prediction, in_lockstep_mode, local/remote/spectator handles, handles_by_address, num_spectators, desync_detection, check_distance, frame 0, Synchronizing iff it has an endpoint)",
+    rule: "three quarters: seeded sequences of 1-12 SessionBuilder calls (60 % coherent configurations with up to 4 perturbing calls inserted and sometimes one removed, 40 % uniformly random) over small domains (num_players 0-4, handles 0-6, 3 addresses, window/delay 0-16, fps {0,1,60}, desync {Off, On 0, On 1, On 5}, check distance 0-17, max_frames_behind {0,1,10,59,60}, catchup {0,1,2,70}) ended by start_p2p / start_synctest / start_spectator; each call's Ok/InvalidRequest is compared with a reference predicate written from the rustdoc, and every accepted configuration is run (P2P against matching simulated peers and spectators for 120 ticks with all oracles, SyncTest for 60 frames, spectator alone for 60 polls). One quarter: runs of C01's space with 2-12 misuse calls (input for a non-local handle, advance_frame with a local input missing, disconnect of a local/unknown handle, delay change or stats for the wrong player type) that must return the documented error, with a twin run without them (identical request lists and events). Non-trivial = a builder sequence with >= 3 calls, or a misuse run in which >= 2 misuse calls executed; distinct = distinct hash of (call sequence, executed schedule); the builder domain includes with_disconnect_timeout {300,1000,2000,5000} ms and with_disconnect_notify_delay {100,500,2500,6000} ms (independent setters: the delay may exceed the timeout), and in a third of the accepted configurations with a remote peer that peer dies while node 0 hangs for longer than both deadlines; a session that comes back from the builder must report the configuration it was given (num_players, max_prediction, in_lockstep_mode, local/remote/spectator handles, handles_by_address, num_spectators, desync_detection, check_distance, frame 0, Synchronizing iff it has an endpoint); in every run of every check each peer's read-only API is exercised every 16th tick (network_stats for every handle - players and spectators, connected or long gone -, the handle lists and counts): no panic, InvalidRequest for local and unknown handles only, lists unchanged",
     nontrivial: nt_c16,
     required_probes: &["builder_sequences", "builder_calls_rejected_as_documented", "builder_starts_rejected_as_documented", "builder_accepted_and_run", "builder_accessors_checked", "builder_spectator_started", "misuse_calls", "misuse_advance_missing_input", "twin_runs"],
     assumptions: &["the reference validity predicate is written from the rustdoc of SessionBuilder", "input delay and prediction window stay within 0..=16 (a delay beyond the 128-slot input ring is outside the claim)", "an accepted configuration that registers one address both as remote and as spectator is not run (it cannot be mapped onto simulated nodes)"],
